@@ -343,7 +343,7 @@ func (c *Context) Quo(d, x, y *Decimal) (Condition, error) {
 	// so, we determine whether the remainder was more or less than half of the
 	// divisor and round accordingly.
 	nd := NumDigits(&d.Coeff)
-	var adjSticky int64
+	var adjSticky, adjCarry int64
 	if rem.Sign() != 0 {
 		// Use the adjusted exponent to determine if we are Subnormal.
 		// If so, don't round. This computation of adj and the check
@@ -354,7 +354,9 @@ func (c *Context) Quo(d, x, y *Decimal) (Condition, error) {
 			rem.Mul(&rem, bigTwo)
 			half := rem.Cmp(&divisor)
 			if c.Rounding.ShouldAddOne(&d.Coeff, d.Negative, half) {
-				d.Coeff.Add(&d.Coeff, bigOne)
+				// roundAddOne keeps the digit count when the increment
+				// carries into a new digit (99..9 + 1).
+				roundAddOne(&d.Coeff, &adjCarry)
 				// The coefficient changed, so recompute num digits in
 				// setExponent.
 				nd = unknownNumDigits
@@ -370,7 +372,7 @@ func (c *Context) Quo(d, x, y *Decimal) (Condition, error) {
 		}
 	}
 
-	res |= d.setExponent(c, nd, res, shift, -adjCoeffs, -adjExp10, adjSticky)
+	res |= d.setExponent(c, nd, res, shift, -adjCoeffs, -adjExp10, adjSticky, adjCarry)
 	return c.goError(res)
 }
 
